@@ -30,8 +30,41 @@ KEYS = {  # server key type -> (cert, key, auth class)
     'dsa': ('serverDSACert.pem', 'serverDSAKey.pem', 'dsa'),
 }
 CLIENT_KEYS = {'client-rsa': ('clientX509Cert.pem', 'clientX509Key.pem'),
-               'client-ecdsa': ('clientECCert.pem', 'clientECKey.pem')}
+               'client-ecdsa': ('clientECCert.pem', 'clientECKey.pem'),
+               'client-ed25519': ('clientEd25519Cert.pem', 'clientEd25519Key.pem'),
+               'client-dsa': ('clientDSACert.pem', 'clientDSAKey.pem'),
+               'rsa': ('serverX509Cert.pem', 'serverX509Key.pem'),
+               'rsapss': ('serverRSAPSSCert.pem', 'serverRSAPSSKey.pem'),
+               'ecdsa384': ('serverP384ECCert.pem', 'serverP384ECKey.pem'),
+               'ecdsa521': ('serverP521ECCert.pem', 'serverP521ECKey.pem'),
+               'ed448': ('serverEd448Cert.pem', 'serverEd448Key.pem')}
 PAYLOADS = [0, 1, 2 ** 14, 2 ** 14 + 1, 50000]
+
+# A fixed 1032-bit safe-prime DH group (generated once with `openssl dhparam 1032`): its prime is 129 bytes
+# long, so the TLS <= 1.1 premaster secret has ODD byte length (RFC 2246 5: the two PRF halves share an octet)
+DH1032_PEM = '''-----BEGIN DH PARAMETERS-----
+MIGIAoGCAIudBTsVp9pnU8kUYZSrt4kC24o3wH04s7vqWWW2cl91ZBElm77y/yK/
+0LqSsf4Xsfo7mlR+CBPSKMwyJmUbX7jeZaRM34R7dT8fEEfZoN5tMPzamSnXmxnv
+PwVOYxWF6+RPoRclcusjLpOHxMtqKAo7WdE7wXl6b2dl7ejxLXXL3wIBAg==
+-----END DH PARAMETERS-----
+'''
+DH1032_P = int('8b9d053b15a7da6753c9146194abb78902db8a37c07d38b3bbea5965b6725f756411259bbef2ff22bfd0ba92b1fe17b1fa3b9a547e'
+               '0813d228cc3226651b5fb8de65a44cdf847b753f1f1047d9a0de6d30fcda9929d79b19ef3f054e631585ebe44fa1172572eb232e93'
+               '87c4cb6a280a3b59d13bc1797a6f6765ede8f12d75cbdf', 16)
+DH_DIR = '/tmp/verif-c07'
+
+
+def dh_file(kind):
+    os.makedirs(DH_DIR, exist_ok=True)
+    if kind == 'odd1032':
+        path = os.path.join(DH_DIR, 'dh1032-fixed.pem')
+        if not os.path.exists(path):
+            with open(path + '.tmp%d' % os.getpid(), 'w') as f:
+                f.write(DH1032_PEM)
+            os.replace(path + '.tmp%d' % os.getpid(), path)
+        return path
+    return os.path.join(DH_DIR, 'ffdhe2048.pem')
+
 
 _OSSL = {}
 
@@ -72,10 +105,13 @@ class OsslEnd(object):
                     ctx.post_handshake_auth = True
                 ctx.verify_mode = ssl.CERT_REQUIRED
                 ctx.load_verify_locations(os.path.join(TESTS, CLIENT_KEYS[cfg['client_key']][0]))
+                # the test certificates are not all self-signed: accept the loaded certificate itself as anchor
+                ctx.verify_flags |= getattr(ssl, 'VERIFY_X509_PARTIAL_CHAIN', 0)
+                ctx.verify_flags |= 0x200000      # X509_V_FLAG_NO_CHECK_TIME: several test certificates have expired
             if cfg.get('no_tickets'):
                 ctx.options |= ssl.OP_NO_TICKET
-            if os.path.exists('/tmp/verif-c07/ffdhe2048.pem'):
-                ctx.load_dh_params('/tmp/verif-c07/ffdhe2048.pem')
+            if os.path.exists(dh_file(cfg.get('dh'))):
+                ctx.load_dh_params(dh_file(cfg.get('dh')))
         else:
             ctx.check_hostname = False
             ctx.verify_mode = ssl.CERT_NONE
@@ -159,6 +195,8 @@ def tl_settings(cfg):
         from tlslite.handshakesettings import TLS13_PERMITTED_GROUPS
         d['eccCurves'] = [c for c in d['eccCurves'] if c in TLS13_PERMITTED_GROUPS]
     s = U.mk_settings(d)
+    if cfg.get('dh') == 'odd1032':
+        s.dhParams = (2, DH1032_P)       # the server's own group when the client names no RFC 7919 group
     if cfg.get('tickets'):
         s.ticketKeys = [bytearray(b'\x07' * 32)]
     return s
@@ -176,17 +214,17 @@ def tl_reader(conn, n, got):
                 break
 
 
-def exchange(tl, os_end, obs, tag):
+def exchange(tl, os_end, obs, tag, payloads=None):
     """application data both ways at the payload sizes; one stream per direction"""
     import random
     rng = random.Random(len(tag))
     blob = bytes(rng.randrange(256) for _ in range(1024)) * 50
     for direction in ('tl->ossl', 'ossl->tl'):
-        total = b''.join(blob[:n] for n in PAYLOADS)
+        total = b''.join(blob[:n] for n in (payloads or PAYLOADS))
         got = bytearray()
 
         def writer():
-            for n in PAYLOADS:
+            for n in (payloads or PAYLOADS):
                 g = tl.writeAsync(blob[:n]) if direction == 'tl->ossl' else os_end.write(blob[:n])
                 for r in g:
                     yield r
@@ -246,7 +284,7 @@ def one_connection(cfg, tag, tl_session=None, ossl_session=None, shared=None):
                    ossl_reused=bool(o.session_reused), tl_curve=tl.ecdhCurve,
                    tl_client_chain=tl.session.clientCertChain is not None and tl.session.clientCertChain.getNumCerts() > 0,
                    ossl_peer_cert=o.getpeercert(binary_form=True) is not None)
-        exchange(tl, os_end, obs, tag)
+        exchange(tl, os_end, obs, tag, cfg.get('payloads'))
         if obs['tl_version'] == 4 and (cfg.get('pha') or cfg.get('keyupdate')):
             post_handshake(cfg, tl, os_end, obs, st)
     return obs, tl, os_end
@@ -442,3 +480,71 @@ Definition chk_spec (k : CaseT) : bool :=
                | Some _, _, _ => false end
   end.
 '''
+
+
+# ---- key derivation functions against OpenSSL's own implementations (`openssl kdf`) -------------------------
+def _ossl_kdf(args):
+    import subprocess
+    p = subprocess.run(['openssl', 'kdf', '-binary'] + args, stdout=subprocess.PIPE, stderr=subprocess.PIPE, timeout=120)
+    if p.returncode != 0:
+        return None, p.stderr.decode('utf-8', 'replace')[-200:]
+    return p.stdout, None
+
+
+def kdf_case(case):
+    """One (function, secret, label/seed or info, length) point: tlslite-ng's function vs `openssl kdf`."""
+    from tlslite import mathtls
+    from tlslite.utils import cryptomath
+    fn, secret, a, b, n = case['fn'], bytes.fromhex(case['secret']), bytes.fromhex(case['a']), bytes.fromhex(case['b']), case['n']
+    try:
+        if fn in ('PRF', 'PRF_1_2', 'PRF_1_2_SHA384'):
+            mine = bytes(getattr(mathtls, fn)(bytearray(secret), bytearray(a), bytearray(b), n))
+            dig = {'PRF': 'MD5-SHA1', 'PRF_1_2': 'SHA256', 'PRF_1_2_SHA384': 'SHA384'}[fn]
+            ref, err = _ossl_kdf(['-keylen', str(n), '-kdfopt', 'digest:' + dig, '-kdfopt', 'hexsecret:' + secret.hex(),
+                                  '-kdfopt', 'hexseed:' + (a + b).hex(), 'TLS1-PRF'])
+        elif fn.startswith('HKDF_extract'):
+            alg = fn.split(':')[1]
+            mine = bytes(cryptomath.secureHMAC(bytearray(a), bytearray(secret), alg))      # salt = a, ikm = secret
+            ref, err = _ossl_kdf(['-keylen', str(len(mine)), '-kdfopt', 'digest:' + alg.upper(), '-kdfopt', 'mode:EXTRACT_ONLY',
+                                  '-kdfopt', 'hexkey:' + secret.hex(), '-kdfopt', 'hexsalt:' + a.hex(), 'HKDF'])
+        elif fn.startswith('HKDF_expand_label'):
+            alg = fn.split(':')[1]
+            mine = bytes(cryptomath.HKDF_expand_label(bytearray(secret), bytearray(a), bytearray(b), n, alg))
+            full = b'tls13 ' + a                      # RFC 8446 7.1 HkdfLabel, built here independently
+            info = n.to_bytes(2, 'big') + bytes([len(full)]) + full + bytes([len(b)]) + b
+            ref, err = _ossl_kdf(['-keylen', str(n), '-kdfopt', 'digest:' + alg.upper(), '-kdfopt', 'mode:EXPAND_ONLY',
+                                  '-kdfopt', 'hexkey:' + secret.hex(), '-kdfopt', 'hexinfo:' + info.hex(), 'HKDF'])
+        else:
+            alg = fn.split(':')[1]
+            mine = bytes(cryptomath.HKDF_expand(bytearray(secret), bytearray(a), n, alg))
+            ref, err = _ossl_kdf(['-keylen', str(n), '-kdfopt', 'digest:' + alg.upper(), '-kdfopt', 'mode:EXPAND_ONLY',
+                                  '-kdfopt', 'hexkey:' + secret.hex(), '-kdfopt', 'hexinfo:' + a.hex(), 'HKDF'])
+    except Exception as e:  # noqa
+        return {'case': case, 'error': '%s: %s' % (type(e).__name__, e)}
+    if ref is None:
+        return {'case': case, 'not_covered': err}
+    return {'case': case, 'equal': mine == ref, 'mine': mine.hex()[:64], 'ref': ref.hex()[:64]}
+
+
+def kdf_cases(rng, quick):
+    """secret lengths of both parities around the sizes that occur (premaster 48, DH shares 128/129/256/257, ...)"""
+    out = []
+    lens = [1, 2, 3, 15, 16, 17, 32, 33, 47, 48, 49, 127, 128, 129, 255, 256, 257]
+    outs = [1, 12, 48, 104, 255] if quick else [1, 12, 13, 47, 48, 49, 104, 136, 255, 256, 1000]
+
+    def rb(n):
+        return bytes(rng.randrange(256) for _ in range(n)).hex()
+    for fn in ('PRF', 'PRF_1_2', 'PRF_1_2_SHA384'):
+        for L in lens:
+            for n in (outs if not quick else [rng.choice(outs), 48]):
+                out.append({'fn': fn, 'secret': rb(L), 'a': rng.choice([b'master secret', b'key expansion', b'client finished', b'x']).hex(),
+                            'b': rb(rng.choice([0, 1, 64, 65])), 'n': n})
+    for alg, hl in (('sha256', 32), ('sha384', 48)):
+        for L in ([1, 31, 32, 33, 48, 49] if quick else lens):
+            out.append({'fn': 'HKDF_extract:' + alg, 'secret': rb(L), 'a': rb(rng.choice([1, hl, hl + 1])), 'b': '', 'n': hl})
+        for n in ([1, 12, hl, hl + 1, 255] if quick else [1, 12, hl - 1, hl, hl + 1, 2 * hl, 2 * hl + 1, 255, 256, 254 * hl, 254 * hl + 1, 255 * hl]):
+            out.append({'fn': 'HKDF_expand:' + alg, 'secret': rb(hl), 'a': rb(rng.choice([0, 1, 10, 65])), 'b': '', 'n': n})
+            if n < 256:
+                out.append({'fn': 'HKDF_expand_label:' + alg, 'secret': rb(hl), 'a': rng.choice([b'key', b'iv', b'finished', b'c hs traffic', b'exporter']).hex(),
+                            'b': rb(rng.choice([0, hl])), 'n': n})
+    return out
